@@ -17,7 +17,7 @@ pub fn meta() -> Meta {
     Meta {
         id: "C20",
         level: "exploration",
-        rule: "(1) counting and table: read pairs with an exactly designed multiplicity histogram (for each designed (count c, n k-mers) a unique segment of n+k-1 letters is read c times, copies alternating between the two files and the two orientations) — every design from a family that puts 49/50/51 k-mers on the last bucket, leaves empty buckets inside, reaches counts 1..12, two long tables (a segment seen 250 / 600 times), and one made of reads of exactly k letters, of k+1 letters and of reads too short to hold a k-mer — plus tilings of a genome with substitution errors and N runs; FASTQ files with an odd number of reads are written with CRLF line ends; k in {7,31,33} (thorough: + 15, 21, 63) x both strand modes; the real CoverageHistogram::new + fit_histogram (hook: truncated counts, per-k-mer multiplicities) and the `ska cov` CLI table are compared with the model's multiplicity of every distinct split k-mer. (2) cutoff rule: hooked find_cutoff on the grid w0 in {0.01,0.05..0.95,0.99} x c in {1,1.5,2,3,5,10,20,40,80} x every table length 1..100 (thorough 1..400) against an independent closed form; end to end the printed cutoff equals that function of the fitted parameters and 'Error' labels exactly the counts below it. (3) likelihood/gradient identity on the basis: every unit histogram e_i (i=1..120 plus 150,172,200,244,300,400,600,999; thorough 1..400 plus those) x 19 w0 (thorough 99) x 12 c (thorough 71): hooked log_likelihood equals the two-Poisson mixture computed independently, hooked grad_ll equals its closed-form derivative (1e-9 relative) and the central difference of the real log_likelihood (1e-5); linearity is checked on composite histograms. Non-trivial = every grid point / designed read set.".into(),
+        rule: "(1) counting and table: read pairs with an exactly designed multiplicity histogram (for each designed (count c, n k-mers) a unique segment of n+k-1 letters is read c times, copies alternating between the two files and the two orientations) — every design from a family that puts 49/50/51 k-mers on the last bucket, leaves empty buckets inside, reaches counts 1..12, long tables (a segment seen 250 / 600 / exactly 1000 times, and segments seen 1001 and 1200 times, which the table must not list), and one made of reads of exactly k letters, of k+1 letters and of reads too short to hold a k-mer — plus tilings of a genome with substitution errors and N runs; FASTQ files with an odd number of reads are written with CRLF line ends; k in {7,31,33} (thorough: + 15, 21, 63) x both strand modes; the real CoverageHistogram::new + fit_histogram (hook: truncated counts, per-k-mer multiplicities) and the `ska cov` CLI table are compared with the model's multiplicity of every distinct split k-mer. (2) cutoff rule: hooked find_cutoff on the grid w0 in {0.01,0.05..0.95,0.99} x c in {1,1.5,2,3,5,10,20,40,80} x every table length 1..100 (thorough 1..400) against an independent closed form; end to end the printed cutoff equals that function of the fitted parameters and 'Error' labels exactly the counts below it. (3) likelihood/gradient identity on the basis: every unit histogram e_i (i=1..120 plus 150,172,200,244,300,400,600,999; thorough 1..400 plus those) x 19 w0 (thorough 99) x 12 c (thorough 71): hooked log_likelihood equals the two-Poisson mixture computed independently, hooked grad_ll equals its closed-form derivative (1e-9 relative) and the central difference of the real log_likelihood (1e-5); linearity is checked on composite histograms. Non-trivial = every grid point / designed read set.".into(),
         assumptions: vec![
             "likelihood and gradient are linear in the histogram, so the unit histograms form a basis (checked on composites)".into(),
             "grid points within 1e-9 of a tie of the two components accept either neighbouring cutoff".into(),
@@ -374,6 +374,9 @@ pub fn run(ctx: &Ctx, rep: &mut Report) {
             // a long table: an over-represented segment (adapter, plasmid) seen 250 and 600 times
             designs.push(vec![(1, 300), (2, 80), (20, 120), (250, 60)]);
             designs.push(vec![(1, 100), (30, 200), (600, 55)]);
+            // multiplicities at and beyond the end of the table: exactly 1000 (last row), 1001 and 1200 (not tabulated)
+            designs.push(vec![(1, 100), (2, 60), (1000, 55)]);
+            designs.push(vec![(1, 100), (2, 60), (1001, 55), (1200, 60)]);
             // reads of exactly k letters (one k-mer each), of k+1 letters, and reads too short to hold a k-mer
             let mut exact: Vec<(usize, usize)> = vec![(1, 120)];
             exact.extend(std::iter::repeat((3usize, 1usize)).take(60));
